@@ -64,6 +64,12 @@ def gen_params(rng, adversarial):
         # (the schema admits only string labels and no `name`; label lists and
         # custom names are reachable through a custom generator, see pgen_variant)
         params[k] = {"values": vals, "label": label}
+    if not long_labels and rng.random() < 0.12:
+        # one parameter whose labels run to 70-130 characters (a long flag string or path as value)
+        k = rng.choice(names)
+        long_v = ["-O2 -g -fno-signed-zeros -ffast-math -funroll-loops -march=native -DNDEBUG -DVARIANT=%d" % i
+                  + (" -DPAD=" + "x" * 40 if rng.random() < 0.3 else "") for i in range(rows)]
+        params[k] = {"values": long_v, "label": "%s.%%%%" % k}
     return params
 
 
